@@ -166,7 +166,9 @@ pub fn check(cx: &Cx, rep: &mut Report) {
                         // and the actor does not end without a cause
                         rep.premise("C11.R3.continues_after_timeout");
                         let cause = af.first_term_cause();
-                        if af.task_end.is_some() && cause.is_none() {
+                        // (a child is also released by its parent's termination, which the reference model of the
+                        // child does not see)
+                        if af.task_end.is_some() && cause.is_none() && !af.is_child {
                             rep.fail(P, "R3", "terminated_after_timeout", format!("actor tag {} terminated after a handler timeout at #{s} although fail_on_timeout is off and nobody stopped it", af.tag), vec![s]);
                         }
                         for m in ix.ops.iter().filter(|o| o.tag == af.tag && o.op == OpK::Send && matches!(o.res, Some(Res::Ok))) {
